@@ -21,7 +21,7 @@ RULE = (
     "scheduled to zero and back. Non-trivial = the history contains a mask change between two consecutive steps that both have "
     ">= 1 gradient AND a step at which, among >= 2 equal-shaped parameters, some but not all have a gradient. Distinct = canonical JSON."
 )
-BOUNDS = "<= 6 parameters per group, <= 2 groups, numel <= 120, <= 15 / 30 steps"
+BOUNDS = "history: <= 6 parameters per group, <= 2 groups, numel <= 120, <= 15 / 30 steps; many_blocks: 65-600 blocks or 66-140 parameters per group, <= 8 / 12 steps; marathon: 2-4 tiny parameters, 1003-2051 (thorough: up to 16400) consecutive presence changes, every step checked"
 ASSUMPTIONS = ["reference model of C01 (vf/refmodel.py)"]
 NONTRIVIAL_FLOOR = 20
 
